@@ -147,7 +147,9 @@ void judge_refinement(hep::vegas_pdf<T> const& old_pdf, T alpha, std::vector<T> 
             LD lo, hi, dens;
             vegas_cdf(og, imp, ng[k], lo, hi, dens);
             LD target = total * k / bins;
-            LD tol = 16 * (bins + 8) * eps<T>() * total * (1 + (LD)alpha) + 4 * eps<T>() * std::fabs(ng[k]) * dens;
+            // the boundary is interpolated as right_edge - width * fraction: its absolute error is a few eps of the right
+            // edge of the old bin (at most 1), which the local density turns into a mass error
+            LD tol = 16 * (bins + 8) * eps<T>() * total * (1 + (LD)alpha) + 8 * eps<T>() * dens;
             (void)maxd;
             count("equi_boundaries_checked");
             if (target < lo - tol || target > hi + tol)
